@@ -491,3 +491,38 @@ def rule_saves(ctx: Ctx, out: Collector) -> None:
                 out.ok('AS-2', cons, sv.where(), 'results are never re-armed')
     if n == 0:
         raise AnalysisError('no artifact save found on the run path (AS anchors vanished)')
+
+
+def rule_format_from_name(ctx: Ctx, out: Collector) -> None:
+    """FS-7: the format of a found artifact is the part of the file name after the last dot - the inverse of the template
+    `<id>.<format>` the store writes.  pathlib's notion of a suffix is not that inverse: `.pickle` (node id '') has no suffix,
+    so a saved key could not be loaded."""
+    p = ctx.p
+    st = _store_class(ctx)
+    uses = []
+    n = 0
+    for m in st.methods.values():
+        for c in ast.walk(m.node):
+            if isinstance(c, ast.Call) and isinstance(c.func, ast.Attribute) and 'extension' in c.func.attr:
+                n += 1
+                for x in ast.walk(c):
+                    if isinstance(x, ast.Attribute) and x.attr in ('suffix', 'suffixes', 'stem'):
+                        uses.append((m, x))
+                # through a local
+                for a in c.args:
+                    if isinstance(a, ast.Name):
+                        for stt in ast.walk(m.node):
+                            if isinstance(stt, ast.Assign) and any(isinstance(t, ast.Name) and t.id == a.id for t in stt.targets):
+                                for x in ast.walk(stt.value):
+                                    if isinstance(x, ast.Attribute) and x.attr in ('suffix', 'suffixes', 'stem'):
+                                        uses.append((m, x))
+    if n == 0:
+        raise AnalysisError('the store never selects a serializer from a file name (FS-7 anchor vanished)')
+    cons = f'{st.module.name}::{st.name}::the format of a found artifact is read off the file name, not off Path.suffix [format-from-name]'
+    if not uses:
+        out.ok('FS-7', cons, p.loc(st.module, st.node), f'{n} serializer selection(s)')
+    else:
+        m, x = uses[0]
+        out.bad('FS-7', cons, p.loc(m, x), f'`{unparse(x)}` is not the inverse of the file-name template `<id>.<format>`: for the node id \'\' '
+                f'the file is `.pickle`, which pathlib regards as a hidden file without suffix - the key is saved (a second save is '
+                f'refused) but load raises SerializerInitializationError')
